@@ -59,7 +59,9 @@ impl<SlotType: Copy+Debug, const BUFFER_SIZE: usize, const METRICS: bool, const 
             unsafe {self.concurrency_guard.unlock()};
             return false;
         }
+        #[cfg(feature = "verif")] crate::verif::yield_point();
         mutable_self.buffer[self.head as usize] = element;
+        #[cfg(feature = "verif")] crate::verif::yield_point();
         mutable_self.head += 1;
         if METRICS {
             mutable_self.push_count += 1;
@@ -82,7 +84,9 @@ impl<SlotType: Copy+Debug, const BUFFER_SIZE: usize, const METRICS: bool, const 
             unsafe {self.concurrency_guard.unlock()};
             return None;
         }
+        #[cfg(feature = "verif")] crate::verif::yield_point();
         let element = self.buffer[self.head as usize - 1];
+        #[cfg(feature = "verif")] crate::verif::yield_point();
         mutable_self.head -= 1;
         if METRICS {
             mutable_self.pop_count += 1;
